@@ -197,9 +197,27 @@ def run_events(tls, valet, T, t0, evs):
         elif k == "persist":
             from ioflo.aid.odicting import lodict
             r = w.requestant()
-            r.version, r.headers, r.chunked, r.length = (1, 1), lodict(), False, 0
+            if len(e) > 1 and e[1] == "1.0ka":     # HTTP/1.0 request with Connection: keep-alive
+                hd = lodict()
+                hd["connection"] = "Keep-Alive"
+                r.version, r.headers, r.chunked, r.length = (1, 0), hd, False, 0
+            else:                                  # HTTP/1.1 default persistence
+                r.version, r.headers, r.chunked, r.length = (1, 1), lodict(), False, 0
             r.checkPersisted()
-            persisted = True
+            persisted = bool(r.persisted)
+        elif k == "parse_np":                      # a parsed request WITHOUT persistence: no model event
+            from ioflo.aid.odicting import lodict
+            r = w.requestant()
+            hd = lodict()
+            if e[1] == "1.1close":
+                hd["connection"] = "close"
+                r.version = (1, 1)
+            else:
+                r.version = (1, 0)
+            r.headers, r.chunked, r.length = hd, False, 0
+            r.checkPersisted()
+            if r.persisted:
+                raise RuntimeError("harness: %s request was marked persisted" % e[1])
         elif k == "done":
             w.v.closeConnection(CA)
             closed_other = True
@@ -219,6 +237,8 @@ def c_evs(evs):
     out = []
     for e in evs:
         k = e[0]
+        if k == "parse_np":
+            continue
         out.append({"tick": lambda: "Tick %s" % cz(e[1]), "rx": lambda: "Rx %s" % cz(e[1]),
                     "tx": lambda: "Tx %s" % cz(e[1]), "eof": lambda: "Eof", "persist": lambda: "Persist",
                     "done": lambda: "Done", "check": lambda: "Check"}[k]())
@@ -274,7 +294,7 @@ def random_events(rng, T):
         elif x < 0.69:
             evs.append(("eof",))
         elif x < 0.73:
-            evs.append(("persist",))
+            evs.append(rng.choice([("persist",), ("persist", "1.0ka"), ("parse_np", "1.1close"), ("parse_np", "1.0")]))
         elif x < 0.75:
             evs.append(("done",))
         else:
@@ -298,7 +318,10 @@ def run_http(tls, T, scenario):
     name, inbox, plan, cycles = scenario
 
     def app(environ, start_response):
-        start_response('200 OK', [('Content-Type', 'text/plain')])
+        hdrs = [('Content-Type', 'text/plain')]
+        if len(plan) == 1:
+            hdrs.append(('Content-Length', str(len(plan[0]))))   # delimited body, also for HTTP/1.0
+        start_response('200 OK', hdrs)
         for c in plan:
             yield c
     w = World(tls, True, T, 0, app=app)
@@ -361,6 +384,12 @@ def scenarios(T):
         # slow upload: one byte of the request every gap ticks
         inbox = dict((i * gap, close_req[i:i + 1]) for i in range(len(close_req)))
         out.append(("slow-upload gap=%d" % gap, inbox, [b"ok"], len(close_req) * gap + 3 * T))
+    keep10_req = b"GET /k HTTP/1.0\r\nHost: x\r\nConnection: keep-alive\r\nContent-Length: 0\r\n\r\n"
+    plain10_req = b"GET /p HTTP/1.0\r\nHost: x\r\nContent-Length: 0\r\n\r\n"
+    out.append(("HTTP/1.0 keep-alive idle", {0: keep10_req}, [b"ok"], 4 * T))
+    out.append(("HTTP/1.0 keep-alive two requests", {0: keep10_req, 3 * T: keep10_req}, [b"ok"], 6 * T))
+    out.append(("HTTP/1.0 no keep-alive", {0: plain10_req}, [b"ok"], 3 * T))
+    out.append(("HTTP/1.1 close", {0: close_req}, [b"ok"], 3 * T))
     out.append(("keep-alive idle", {0: keep_req}, [b"ok"], 4 * T))
     out.append(("keep-alive two requests", {0: keep_req, 3 * T: keep_req}, [b"ok"], 6 * T))
     out.append(("silent client", {}, [b"ok"], 3 * T))
@@ -377,7 +406,8 @@ def run(ctx):
                 "Valet|Porter + Server|ServerTls + Incomer|IncomerTls + StoreTimer (socket doubles, Store clock in "
                 "1/8 s ticks) and on the Coq model: directed busy schedules (activity every gap < T) for every class "
                 "+ seeded random schedules; (b) HTTP scenarios through the real parser and WSGI responder (streamed "
-                "response, slow upload, keep-alive, silent client): the trace seen at the socket double is replayed on "
+                "response, slow upload, HTTP/1.1 keep-alive, HTTP/1.0 Connection: keep-alive, HTTP/1.0 plain, HTTP/1.1 "
+                "close, silent client): the trace seen at the socket double is replayed on "
                 "the model; non-trivial = the schedule contains activity later than the accept; distinct by "
                 "(class, server, T, schedule)")
     ctx.assumptions = [
@@ -399,6 +429,7 @@ def run(ctx):
         ctx.coq_build("C28/Props.v")
 
     cases, metas = [], []
+    http_inputs = {}
 
     def add(tls, valet, T, t0, evs, r, label):
         busy = any(e[0] in ("rx", "tx") and e[1] > 0 for e in evs)
@@ -426,6 +457,13 @@ def run(ctx):
             for sc in scenarios(T):
                 evs, r = run_http(tls, T, sc)
                 add(tls, True, T, 0, evs, r, "http:" + sc[0])
+                http_inputs["http:" + sc[0]] = dict((cyc, data.decode("latin1")) for cyc, data in sc[1].items())
+        # directed persistence schedules: every kind of parsed request, then idle for longer than the timeout
+        for valet in (True, False):
+            for T in (4, 20):
+                for pe in (("persist",), ("persist", "1.0ka"), ("parse_np", "1.1close"), ("parse_np", "1.0")):
+                    evs = [("rx", 5), pe, ("tick", T - 1), ("check",), ("tick", 2), ("check",), ("tick", 3 * T), ("check",)]
+                    add(tls, valet, T, 0, evs, run_events(tls, valet, T, 0, evs), "persistence:" + "/".join(pe))
 
     if table is not None:
         try:
@@ -442,19 +480,34 @@ def run(ctx):
     ctx.exhaustive = False
 
     def search():
-        best = None
-        for tls, valet, T, t0, evs, r, label in metas:
+        def witness(m, why):
+            tls, valet, T, t0, evs, r, label = m
+            persisted = "persistence" in why
+            w = {"connection_class": "IncomerTls" if tls else "Incomer",
+                 "server": "Valet" if valet else "Porter", "scheme": "https" if tls else "http",
+                 "configured_timeout_ticks": r["configured"], "accept_tick": t0,
+                 "tick_seconds": 1 / TICK, "schedule": label, "events": evs, "observed": r, "why": why,
+                 "expected": "closed for idleness only if now - last rx/tx >= timeout; never once persisted",
+                 "contradicts": ("C28.Props.persisted_not_dropped" if persisted else
+                                 "C28.Props.closed_for_idle_only_if_idle / refresh_called_everywhere"),
+                 "key": "persisted-connection-dropped-by-idle-timer" if persisted else "connection-dropped-while-busy"}
+            if label in http_inputs:
+                w["http_requests_by_cycle"] = http_inputs[label]
+            return w
+        best, best_http = None, None
+        for m in metas:
+            r, evs, label = m[5], m[4], m[6]
             if r["configured"] <= 0:
                 continue
-            why = prop_holds(T, r)
-            if why and (best is None or len(evs) < len(best["events"])):
-                best = {"connection_class": "IncomerTls" if tls else "Incomer",
-                        "server": "Valet" if valet else "Porter", "scheme": "https" if tls else "http",
-                        "configured_timeout_ticks": r["configured"], "accept_tick": t0,
-                        "tick_seconds": 1 / TICK, "schedule": label, "events": evs, "observed": r, "why": why,
-                        "expected": "closed for idleness only if now - last rx/tx >= timeout; never once persisted",
-                        "contradicts": "C28.Props.closed_for_idle_only_if_idle / refresh_called_everywhere",
-                        "key": "tls-incomer-never-refreshes"}
+            why = prop_holds(m[2], r)
+            if not why:
+                continue
+            if best is None or len(evs) < len(best["events"]):
+                best = witness(m, why)
+            if label.startswith("http:") and (best_http is None or len(evs) < len(best_http["events"])):
+                best_http = witness(m, why)
+        if best is not None and best_http is not None and best_http is not best:
+            best["http_level_witness"] = dict((k, v) for k, v in best_http.items() if k != "key")
         return best
 
     ctx.settle(search)
